@@ -45,6 +45,11 @@ Theorem C07_model_xy : forall sp c ri xb yb ab ox oy,
 Proof. intros sp c ri xb yb ab ox oy Hr Hx. apply xy_coordinates_fit with (ab := ab). eapply gri_xy; eauto. Qed.
 Print Assumptions C07_model_xy.
 
+(* and they are pairwise distinct: compile rejects two interfaces with one coordinate *)
+Theorem C07_model_xy_distinct : forall d g c, compile d g = Ok c -> d_algo d = XY -> NoDup (map cn_id (c_nis c)).
+Proof. exact xy_ids_distinct. Qed.
+Print Assumptions C07_model_xy_distinct.
+
 Example C07_nonvacuous :
   match (do g <- build (ex_star ID); do c <- compile (ex_star ID) g; Ok c) with
   | Ok c => list_eqb Z.eqb (map cn_uid (c_nis c)) [0; 1; 2; 3]
